@@ -1,11 +1,12 @@
 SPECIFICATION Spec
 CONSTANTS
-  Callers = {1, 2, 3}
+  Callers = {1}
   Redispatch = TRUE
   StartStates = {"VIRGIN", "QUEUED", "INITIALIZING", "INCOMPLETE", "DOWNLOADING", "UPLOADING", "COMPLETE", "FAILED", "ABORTED", "PAUSED"}
   Dirs = {"up", "down"}
   Lst2Kinds = {"none"}
-  WithLoad = FALSE
+  WithLoad = TRUE
+CONSTRAINT OrderedCallers
 INVARIANT TypeOK
 INVARIANT Mutex
 INVARIANT HolderInBody
@@ -14,4 +15,5 @@ PROPERTY Notified
 PROPERTY RefusalHasNoEffect
 PROPERTY RefusedOnlyIfNotAllowed
 PROPERTY FileOnlyRemovedByAbort
+PROPERTY LoadedIsSettled
 CHECK_DEADLOCK FALSE
